@@ -720,6 +720,81 @@ def gc_item():
             "Definition gen_gc_decision (real_dir exp_match reg_match recorded : bool) : N := %s.\n" % block(list(loop.body), "0%N"))
 
 
+def restore_item():
+    """cli/restore.py main: the ORDER of the steps of the try block (and of its handlers).  Step codes: 1 rmtree(staging),
+    2 mkdir(staging), 3 extract_archive, 4 test that the archive's index file exists, 5 load it, 6 copy_entries_to
+    (the row inserts), 7 get_all_versions; in the loop 8 test that the staged directory exists, 9 copytree, 10 test
+    that the destination exists; 11 commit_changes.  Handler: 12 rollback_changes; finally: 13 rmtree(staging)."""
+    f = _find_function("conductor/cli/restore.py", "main")
+    tr = None
+    for st in f.body:
+        if isinstance(st, ast.Try):
+            tr = st
+    if tr is None:
+        raise Unsupported("no try block in restore.main")
+    calls = [("shutil.rmtree(staging_path", 1), ("staging_path.mkdir(", 2), ("extract_archive(archive_file, staging_path)", 3),
+             ("archive_version_index = VersionIndex.create_or_load(", 5), ("archive_version_index.copy_entries_to(", 6),
+             ("dest_task_path.parent.mkdir(", None), ("shutil.copytree(src_task_path, dest_task_path", 9), ("ctx.version_index.commit_changes()", 11),
+             ("ctx.version_index.rollback_changes()", 12), ("del archive_version_index", None)]
+    tests = {"not archive_version_index_path.is_file()": 4, "not src_task_path.is_dir()": 8, "not dest_task_path.is_dir()": 10}
+    plain_assign = {"archive_version_index", "staging_path", "archive_version_index_path", "src_task_path", "dest_task_path"}
+
+    def seq(stmts):
+        """(codes before the loop, codes of the loop body, codes after the loop)"""
+        pre, body, post, seen_loop = [], [], [], False
+        for st in stmts:
+            src = ast.unparse(st)
+            cur = post if seen_loop else pre
+            if isinstance(st, ast.For):
+                if seen_loop or ast.unparse(st.iter) != "archive_version_index.get_all_versions()" or st.orelse:
+                    raise Unsupported("loop outside the supported fragment: %s" % src.splitlines()[0])
+                pre.append(7)
+                b_pre, b_body, b_post = seq(st.body)
+                if b_body or b_post:
+                    raise Unsupported("nested loop in restore.main")
+                body = b_pre
+                seen_loop = True
+                continue
+            if isinstance(st, ast.If) and not st.orelse and ast.unparse(st.test) in tests and len(st.body) == 1 and isinstance(st.body[0], ast.Raise):
+                cur.append(tests[ast.unparse(st.test)])
+                continue
+            if isinstance(st, ast.Try) and len(st.body) == 1 and not st.finalbody and not st.orelse and all(isinstance(h.body[-1], ast.Raise) for h in st.handlers):
+                a, b, c = seq(st.body)
+                if b or c:
+                    raise Unsupported("loop inside an inner try of restore.main")
+                cur.extend(a)
+                continue
+            matched = False
+            for prefix, code in calls:
+                if src.startswith(prefix):
+                    if code is not None:
+                        cur.append(code)
+                    matched = True
+                    break
+            if matched:
+                continue
+            if isinstance(st, ast.Assign) and len(st.targets) == 1 and isinstance(st.targets[0], ast.Name) and st.targets[0].id in plain_assign \
+                    and not any(isinstance(n, ast.Call) and ast.unparse(n.func) not in ("pathlib.Path", "f.task_output_dir") for n in ast.walk(st.value)):
+                continue
+            if isinstance(st, ast.Raise):
+                continue
+            raise Unsupported("statement outside the supported fragment: %s" % src.splitlines()[0])
+        return pre, body, post
+
+    pre, body, post = seq(tr.body)
+    if len(tr.handlers) != 1 or tr.handlers[0].type is not None:
+        raise Unsupported("restore.main: expected one bare `except:`")
+    h_pre, h_b, h_post = seq(tr.handlers[0].body)
+    f_pre, f_b, f_post = seq(tr.finalbody)
+    if h_b or h_post or f_b or f_post:
+        raise Unsupported("loop in a handler of restore.main")
+    lst = lambda l: "[" + "; ".join("%d%%N" % x for x in l) + "]"  # noqa: E731
+    return ("(* conductor/cli/restore.py main: the order of the steps (codes in harness/gen_generated.py restore_item) *)\n"
+            "Definition gen_restore_before_loop : list N := %s.\nDefinition gen_restore_loop_body : list N := %s.\n"
+            "Definition gen_restore_after_loop : list N := %s.\nDefinition gen_restore_on_error : list N := %s.\nDefinition gen_restore_finally : list N := %s.\n"
+            % (lst(pre), lst(body), lst(post), lst(h_pre), lst(f_pre)))
+
+
 def version_item():
     """VersionIndex.generate_new_output_version: the timestamp as a function of the clock and the last timestamp"""
     f = _find_method("conductor/execution/version_index.py", "VersionIndex", "generate_new_output_version")
@@ -784,7 +859,7 @@ def generate():
         failures["task_type_table"] = "%s: %s" % (type(ex).__name__, ex)
         parts.append("(* task_type_table: NOT TRANSLATED: %s *)\n" % str(ex).replace("*)", "* )"))
     for coqname, fn in (("gen_gate_open", gate_item), ("gen_new_version", version_item), ("gen_loop_goes_on", loop_item), ("gen_wants_slot", slot_item),
-                        ("gen_prune", prune_item), ("gen_should_run", should_run_item), ("gen_validate_args", validate_args_item), ("gen_finish", finish_item), ("gen_record_type", record_type_item), ("gen_combine_decision", combine_item), ("gen_gc_decision", gc_item)):
+                        ("gen_prune", prune_item), ("gen_should_run", should_run_item), ("gen_validate_args", validate_args_item), ("gen_finish", finish_item), ("gen_record_type", record_type_item), ("gen_combine_decision", combine_item), ("gen_gc_decision", gc_item), ("gen_restore_before_loop", restore_item)):
         try:
             parts.append(fn())
         except Exception as ex:  # pylint: disable=broad-except
